@@ -163,6 +163,9 @@ def label_case(rec, pvl, key, tier, tmp, holder):
                 end_pos = len(text) - len(toks[-1].text) \
                     if not non_ascii and "-\n" not in text else None
                 problems = []
+                if last[0] == ";" and len(tr.fresh) > 1 and \
+                        tr.fresh[-2][0].casefold() == "end":
+                    last = tr.fresh[-2]    # the END statement's own delimiter
                 if last[0].casefold() != "end":
                     problems.append(f"last token requested is {last[0][:30]!r}, not END")
                 elif last[1] is not None and end_pos is not None and last[1] != end_pos:
